@@ -225,6 +225,29 @@ def _adt_type_shape(a):
 
 
 def canonical_adt_names(d):
+    """Fixpoint of `_adt_names_once`: private types that mention each other (`ClassMapping { members: HashMap<&str, ClassMembers> }`) are
+    recognised one after the other - a name found in one pass is put back into the field types the next pass compares."""
+    import copy
+    total = {}
+    work = copy.deepcopy(d["items"]["adts"])
+    for _ in range(4):
+        found = _adt_names_once({"items": {"adts": work}})
+        new = {k_: v_ for k_, v_ in found.items() if k_ not in total}
+        if not new:
+            break
+        total.update(new)
+        for a_ in work:
+            for new_q, old_q in new.items():
+                if a_["path"] == "proguard::" + new_q:
+                    a_["path"] = "proguard::" + old_q
+                for v_ in a_["variants"]:
+                    for f_ in v_["fields"]:
+                        if f_.get("ty"):
+                            f_["ty"] = re.sub(r"(?<![\w])%s(?![\w])" % re.escape(new_q), old_q, f_["ty"])
+    return total
+
+
+def _adt_names_once(d):
     """The name of a type that cannot be named outside the crate is not behaviour. `adt_names.json` freezes the reference tree's
     crate-private types (module, name, kind, field names per variant). A private type of the analysed tree that the table does not
     know, in a module where exactly one table type is missing, of the same kind and with the same variants and field names, is that
